@@ -739,6 +739,56 @@ def _split_parts_call(fn, a, k, e):
     raise NotTranslatable("split_parts call shape")
 
 
+# ---------------------------------------------------------------------------------------------- C09 / C06: HTTP signature texts
+def _sighdr_ctor(fn, args, kw, env):
+    if args or set(kw) != {"name", "value", "is_optional"}:
+        raise NotTranslatable("SignatureHeader(...) call shape")
+    return ("({ name := " + fn.coerce(kw["name"], env, "Bytes") + ", optional := " + fn.coerce(kw["is_optional"], env, "Bool")
+            + ", value := " + fn.coerce(kw["value"], env, "Opt:Bytes") + " } : SigHdr)", "Rec:SigHdr")
+
+
+def _httpsig_ctor(fn, args, kw, env):
+    if args or set(kw) != {"version", "headers", "absent_headers", "expected_software"}:
+        raise NotTranslatable("HTTPSignature(...) call shape")
+    return ("({ version := intToOpt " + par(fn.coerce(kw["version"], env, "Int")) + ", headers := " + fn.coerce(kw["headers"], env, "List:Rec:SigHdr")
+            + ", absent := " + fn.coerce(kw["absent_headers"], env, "List:Bytes") + ", software := " + fn.coerce(kw["expected_software"], env, "Opt:Bytes")
+            + " } : HttpSig)", "Rec:HttpSig")
+
+
+def _header_split(fn, args, kw, env):
+    # _HEADER_PATTERN.split(x): the regular expression rb",(?![^\[]*\])" - a comma not followed by a closing bracket before any
+    # opening one - is the model's splitHeaders (bound, not printed)
+    if kw or len(args) != 1:
+        raise NotTranslatable("_HEADER_PATTERN.split call shape")
+    x, tx = fn.expr(args[0], env)
+    if tx != "Bytes":
+        raise NotTranslatable("_HEADER_PATTERN.split of a non-bytes value")
+    return (f"(splitHeaders {par(x)})", "List:Bytes")
+
+
+_HTTP_LEAN_TYPES = {"Str": "List Char", "Bytes": "Bytes", "Rec:HttpSig": "HttpSig", "Rec:SigHdr": "SigHdr"}
+TARGETS.append(dict(
+    module="pyp0f.database.signatures.http", func="_parse_headers", file="ParseSigHeaders", lean="parseSigHeaders",
+    import_="P0f.Model.Http", open="P0f P0f.Py",
+    pyparams=["field"], params=[("field", "List Char")], ret="List:Rec:SigHdr", lean_ret="List SigHdr",
+    env={"field": ("field", "Str")}, bytes_elem="Char", sort_carried=True, list_types={"headers": "List:Rec:SigHdr"},
+    lean_types=_HTTP_LEAN_TYPES, calls={"SignatureHeader": _sighdr_ctor, "_HEADER_PATTERN.split": _header_split},
+    alias="def parseSigHeaders_loop0 (field : List Char) (l : List Bytes) (headers : List SigHdr) : List SigHdr :=\n"
+          "  headers ++ (l.filter (fun h => !h.isEmpty)).map P0f.parseSigHeader\n"
+          "def parseSigHeaders (field : List Char) : List SigHdr := P0f.parseSigHeaders field\n",
+))
+TARGETS.append(dict(
+    module="pyp0f.database.signatures.http", func="HTTPSignature.parse", file="ParseHttpSig", lean="parseHttpSig",
+    import_="P0f.Generated.Logic.ParseSigHeaders\nimport P0f.Model.SigParse\nimport P0f.Model.Q", open="P0f P0f.Py",
+    decorators=("classmethod",), pyparams=["cls", "raw_signature"], params=[("raw_signature", "List Char")],
+    ret="Opt:Rec:HttpSig", lean_ret="Option HttpSig",
+    env={"raw_signature": ("raw_signature", "Str")}, raises=RAISES_FIELD, bytes_elem="Char", lean_types=_HTTP_LEAN_TYPES,
+    list_types={"absent_headers": "List:Bytes"},
+    calls={"split_parts": lambda fn, a, k, e: _split_parts_call(fn, a, k, e), "cls": _httpsig_ctor,
+           "_parse_headers": call_gen("P0f.Gen.parseSigHeaders", ["Str"], "List:Rec:SigHdr")},
+    alias="def parseHttpSig (raw_signature : List Char) : Option HttpSig := P0f.parseHttpSig raw_signature\n",
+))
+
 # ---------------------------------------------------------------------------------------------- C15 / C09: labels, MTU signatures, section headers
 TARGETS.append(dict(
     module="pyp0f.database.signatures.mtu", func="MTUSignature.parse", file="ParseMtuSig", lean="parseMtuSig", import_="P0f.Model.SigParse", open="P0f P0f.Py",
